@@ -51,8 +51,28 @@ Definition render_state (s : gst) (inexact : bool) : text :=
        ++ 120%N :: (if inexact then kw "1" else kw "0") ++ [59%N].
 
 (* the specification's view of one collection: survivors = managed objects reachable from the roots *)
+(* reachability as the harness's observer computes it: a released box is not followed *)
+Fixpoint live_reach (fuel : nat) (h : heap) (todo : list val) (seen : list positive) : list positive :=
+  match fuel with
+  | O => seen
+  | S f =>
+      match todo with
+      | [] => seen
+      | v :: r =>
+          match val_loc v with
+          | None => live_reach f h r seen
+          | Some l =>
+              if existsb (Pos.eqb l) seen then live_reach f h r seen
+              else match PM.find l (cells h) with
+                   | Some (true, OArr vs) => live_reach f h (vs ++ r) (l :: seen)
+                   | _ => live_reach f h r (l :: seen)
+                   end
+          end
+      end
+  end.
+
 Definition run_exact (h : heap) (before after : list val) (roots : list val) : bool :=
-  let r := reach_list_fuel (S (Pos.to_nat (next_loc h)) * S (Pos.to_nat (next_loc h)) + length roots) h roots [] in
+  let r := live_reach (S (Pos.to_nat (next_loc h)) * S (Pos.to_nat (next_loc h)) + length roots) h roots [] in
   let reachable v := match val_loc v with Some l => existsb (Pos.eqb l) r | None => false end in
   let expect := filter reachable before in
   (Nat.eqb (length expect) (length after))
